@@ -5,8 +5,8 @@ From Coq Require Import Strings.Byte.
 Require Import BS.Common.
 Import ListNotations.
 
-Definition fname := list byte.
-Definition line := (N * list byte)%type.          (* timestamp, payload *)
+Notation fname := (list byte) (only parsing).
+Notation line := (N * list byte)%type (only parsing).          (* timestamp, payload *)
 
 Inductive bound := Incl (t:N) | Excl (t:N) | Unb.
 Inductive cbmode := CbNone | CbDeny | CbAllow.
